@@ -33,7 +33,7 @@ def main():
     checks = [prop]
     if "--checks" in sys.argv:
         checks = sys.argv[sys.argv.index("--checks") + 1].split(",")
-    src = "/tmp/seed-%s-out" % prop
+    src = os.environ.get("SEED_SRC", "/tmp/seed-%s-out") % prop
     diff = os.path.join(src, "change%s.diff" % k)
     demo = os.path.join(src, "demo%s.rs" % k)
     notes = os.path.join(src, "notes%s.md" % k)
@@ -41,7 +41,7 @@ def main():
         if not os.path.exists(f):
             print("missing", f)
             sys.exit(2)
-    out = os.path.join(ROOT, "seeded", "%s-%s" % (prop, k))
+    out = os.path.join(ROOT, "seeded", "%s-%s%s" % (prop, os.environ.get("SEED_TAG", ""), k))
     os.makedirs(out, exist_ok=True)
     meta = {"property": prop, "index": int(k), "confirmed": {}, "checks": {}}
     wt = "/tmp/seedchk-%s-%s" % (prop, k)
@@ -111,7 +111,7 @@ def main():
                    "git -C /repo apply patch.diff; " + "; ".join("./check %s --tier quick" % c for c in checks) + "; git -C /repo checkout -- ."]
     json.dump(meta, open(os.path.join(out, "meta.json"), "w"), indent=1)
     caught = [c for c, v in meta["checks"].items() if v["exit"] == 1]
-    print("%s-%s confirmed=%s caught_by=%s missed_by=%s" % (prop, k, confirmed, caught, [c for c in checks if c not in caught]))
+    print("%s-%s%s confirmed=%s caught_by=%s missed_by=%s" % (prop, os.environ.get("SEED_TAG", ""), k, confirmed, caught, [c for c in checks if c not in caught]))
 
 
 if __name__ == "__main__":
